@@ -203,6 +203,7 @@ package parser
 //@   goal keyed-by-own-name: result != nil ==> istype(result, *ast.ReserveStmt) && has(p.reserves, as(result, *ast.ReserveStmt).Name.Value)
 //@        && p.reserves[as(result, *ast.ReserveStmt).Name.Value] == as(result, *ast.ReserveStmt)
 //@ func (p *Parser) parseInsertStmt
+//@   goal carries-the-file-it-was-parsed-from: result != nil && istype(result, *ast.InsertStmt) && refof(result) != 0 ==> as(result, *ast.InsertStmt).FilePath == p.filepath
 //@   call checkDuplicateInserts#0: bind dup
 //@   goal duplicates-are-always-checked: result != nil ==> !dup
 //@   call parseExpression#*: assert whole-expression-level: arg1 == LOWEST
@@ -426,6 +427,10 @@ package parser
 //@   ensures says-whether-the-name-is-taken: result == old(has(p.inserts, stmt.Name.Value))
 //@   decreases PD(p), 2
 
+// C07: the text between @component(...) and its first @slot is indentation exactly when every
+// byte of it is a blank, a tab, a line feed or a carriage return (CRLF pages included)
+//@ spec wsByte(b int) bool = b == 32 || b == 9 || b == 10 || b == 13
 //@ func isWhitespace
+//@   ensures only-blanks-tabs-and-line-ends: result == forall(k, 0, len(str), wsByte(int(str[k])))
 //@   modifies nothing
-//@   loop 0: invariant true
+//@   loop 0: invariant strpos() <= len(str) && forall(k, 0, strpos(), wsByte(int(str[k])))
